@@ -10,5 +10,7 @@ def check(ctx, rep):
     eff.eff_5(ctx, rep)
     eff.memo_1(ctx, rep)      # the reasoned write-once memos: their keys determine their values
     rep.assume('no reflection (setattr / __dict__ / exec) is used to write shared state; call resolution policy of DESIGN.md section 1')
+    from ..rules import eff as _eff6
+    _eff6.eff_6(ctx, rep)        # no memo hands one mutable result to several callers
     rep.note('Absence of shared writes => every interleaving and call order yields the sequential result. '
              'Not decided: behaviour under recursion-limit pressure, GIL-free builds.')
